@@ -316,6 +316,41 @@ def r6_no_final(ctx, chk, rule="C09.1"):
         chk.ok(rule, f.where(), "no explicit empty-final guard in solve_reachability; the empty-list witness of check_game decides this rule")
 
 
+def _always_calls(ctx, f, target, depth):
+    """on every normal path f calls `target`, directly or through a function that itself always does"""
+    if depth > 3:
+        return False
+    cfg = ctx.cfg(f)
+    for call, callees in ctx.cg.call_sites(f):
+        if getattr(call, "synthetic", False) or not callees:
+            continue
+        try:
+            every = cfg.on_every_normal_path(call)
+        except Exception:
+            continue
+        if not every:
+            continue
+        if all(g.name == target or _always_calls(ctx, g, target, depth + 1) for g in callees):
+            return True
+    return False
+
+
+def _with_helpers(ctx, f):
+    """f with its private helper methods (`self._x(...)`) written out, when that can be done (loader._inline_helpers)."""
+    from ..loader import _inline_helpers, add_parents, Func
+    try:
+        node = _inline_helpers(ctx.prog, f)
+    except Exception:
+        node = None
+    if node is None:
+        return f
+    add_parents(node)
+    node.parent = getattr(f.node, "parent", None)
+    v = Func(f.mod, f.cls, node)
+    v.inlined_view = True
+    return v
+
+
 def r4_placement(ctx, chk, rule="C09.4"):
     solve = ctx.func("tad.py::StochasticGame.solve")
     cfg = ctx.cfg(solve)
@@ -345,6 +380,8 @@ def r4_placement(ctx, chk, rule="C09.4"):
     cn = C02.calls_of(node_init, "check_next_states")
     if len(cn) == 1 and ncfg.on_every_normal_path(cn[0]):
         chk.ok(rule, node_init.where(cn[0]), "Node.__init__ always runs check_next_states()")
+    elif not cn and _always_calls(ctx, node_init, "check_next_states", 0):
+        chk.ok(rule, node_init.where(), "Node.__init__ always runs check_next_states() (through a helper that it calls on every path)")
     else:
         chk.violation(rule, node_init.where(), "Node.__init__ does not always run check_next_states()", expected="unconditional call",
                       found="%d call(s)" % len(cn), construct="Node.__init__ validation call")
